@@ -111,6 +111,7 @@ class SimSpec:
             "scenarios_with_a_resubmission": sum(1 for t in tasks if (t["args"]["scen"].get("resubmit") or {}).get("rounds")),
             "resubmissions_with_changed_group_parameters": sum(1 for t in tasks for rd in (t["args"]["scen"].get("resubmit") or {}).get("rounds", []) if rd.get("groups")),
             "scenarios_with_parameters_given_as_submit_jobs_options": sum(1 for t in tasks if t["args"]["scen"].get("cli_params")),
+            "scenarios_without_distributed_submitter": sum(1 for t in tasks if any(not g.get("dsub", True) for g in t["args"]["scen"]["groups"])),
             "scenarios_with_a_held_slow_blocker": sum(1 for t in tasks if t["args"]["scen"].get("hold_job")),
             "lock_markers_of_live_holders_detached_by_the_lock_library": total(ok, "live_lock_breaks"),
         }
@@ -151,6 +152,9 @@ class C01(SimSpec):
         scen["user"]["try_submit"] = rng.choice([0, 1, 2, 3])
         if i % 10 == 7:
             scenario.to_cli_mode(scen)  # parameters as options of submit-jobs, no groups in the configuration
+        if i % 10 == 3:
+            for g in scen["groups"]:
+                g["dsub"] = False  # --no-distributed-submitter: the nodes never act as submitter, every round is the user's
         return scen
 
     def tasks(self, tier, seed):
@@ -324,6 +328,9 @@ class C03(SimSpec):
                     scen["user"] = {}
                 if v == 0 and i % 3 == 0:
                     scenario.to_cli_mode(scen)  # the same DAG with the parameters given as options of submit-jobs
+                if v == 0 and i % 3 == 1:
+                    for g in scen["groups"]:
+                        g["dsub"] = False  # no distributed submitter: only the user's rounds move the submission on
                 if v == 2:
                     # collection race variant: rounds collect the result files of batches that are still running jobs, with
                     # delays between a collector's read and its delete of a node file
@@ -487,6 +494,9 @@ class C05(SimSpec):
             for j in scen["jobs"]:
                 if rng.random() < 0.35:
                     j["rc"] = rng.choice([1, 2])
+        if i % 8 == 7:
+            for g in scen["groups"]:
+                g["dsub"] = False  # --no-distributed-submitter: progress only through the user's rounds, each of which is judged
         if i % 8 == 5:
             endgame(scen, rng)
             scen["endgame_k"] = 1 + (i // 8) % 10  # which critical point of the late round is stalled: all of them in turn
